@@ -841,6 +841,10 @@ def match_finding(f, k):
             return False
     if r.get("got") and list(f.get("got") or []) != list(r["got"]):
         return False
+    if r.get("stream") and inp.get("stream") != r["stream"]:
+        return False
+    if r.get("chain_has_any") and not any(op and op[0] in r["chain_has_any"] for op in inp.get("chain", [])):
+        return False
     return True
 
 
